@@ -511,6 +511,22 @@ def run(ctx):
     ctx.attempt(r58, ctx)
     ctx.rule("R-5.10", "the acquire primitive does not evaluate the P matrix (the idle block may be empty right after the last acquire)", floor=1)
     ctx.attempt(r510, ctx)
+    ctx.rule("R-5.17", "a zero swap is only started when its partner ensemble is idle (dominating test on the partner's own busy flag; shared with C03 R-3.4): else the partner is drawn from an all-zero column of P", floor=2)
+    from . import c03 as _c03p
+    from .shared import RuleProxy as _RP5p
+
+    class _Quiet(_RP5p):  # the acquire tables of C03 are recomputed without reporting their own rules here
+        def ok(self, *a, **k):
+            pass
+
+        def bad(self, *a, **k):
+            pass
+
+    def _r517(c):
+        acq_funcs, _rel = _c03p.r31_32(_Quiet(c, "R-5.17"))
+        acq, methods = _c03p.r33(_Quiet(c, "R-5.17"), acq_funcs)
+        _c03p.r34(_RP5p(c, "R-5.17", " (rgen.choice raises on probabilities that do not sum to 1: no job can be drawn and the picked ensemble stays busy for good)"), acq, methods)
+    ctx.attempt(_r517, ctx)
     ctx.rule("R-5.16", "the restart file written after a step loads: it is complete when it takes the final name (dump, close, then the replace; shared with C08 R-8.2)", floor=1)
     from . import c08 as _c08o
     from .shared import RuleProxy as _RP5o
@@ -540,6 +556,7 @@ def run(ctx):
 
 
 VARIANTS = [
+    B("c05-zero-swap-guard-tests-the-wrong-flag", REPEX, "            or (ens == self._offset - 1 and not self._locks[self._offset])", "            or (ens == self._offset - 1 and not self._locks[self._offset + 1])", "R-5.17", control=True, why="seeded C05_p"),
     B("c05-restart-file-renamed-before-it-is-closed", REPEX, '        os.replace("./restart.toml.tmp", "./restart.toml")\n', '            os.replace("./restart.toml.tmp", "./restart.toml")\n', "R-5.16", control=True, why="seeded C05_o"),
     B("c05-rows-gathered-with-the-sorting-permutation", REPEX, "        out[sort_idx] = out.copy()  # COPY REQUIRED TO NOT BRAKE STATE!!!", "        out = out[sort_idx]  # undo the row sorting", "R-5.15", control=True, why="seeded C05_n"),
     B("c05-engines-released-per-requested-type-only", "infretis/classes/engines/factory.py", "    for eng_key in engine_occ.keys():\n        for i, occupied_by in enumerate(engine_occ[eng_key]):\n            if pin == occupied_by:", "    for eng_key in eng_names:\n        for i, occupied_by in enumerate(engine_occ[eng_key]):\n            if pin == occupied_by:", "R-5.14", control=True, why="seeded C05_m"),
